@@ -13,6 +13,7 @@
    about UpdateKeys, the epochs being in step and delivery fail without the premise. *)
 From Coq Require Import List NArith Bool.
 From DtlsV Require Import Lib.Bytes Rec.Window Ku.C20KeyUpdate Ku.C20KeyUpdateSound Ku.C20Run.
+From DtlsV Require Import Ku.C20Pending Ku.C20PendingSound.
 Import ListNotations.
 Open Scope N_scope.
 
@@ -256,3 +257,33 @@ Example C20_example_long_epoch :
    (ev_read evs, ev_done evs, (w_epoch (sd st A), r_epoch (sd st B))))
   = ([(B, 2); (B, 1)], [(A, 0)], (4, 4)).
 Proof. split; [vm_compute; repeat split; tauto | vm_compute; reflexivity]. Qed.
+
+(* ---- a KeyUpdate requested while ANOTHER reliable post-handshake flight (the server's NewSessionTicket)
+   is still unacknowledged: the explicit post-handshake queue of one endpoint (Ku/C20Pending.v).
+   Histories = any list of enqueued commands (application data, KeyUpdate, ticket), ACKs of the pending
+   flight (their absence = loss) and retransmission timers, from any starting epoch. ---- *)
+Theorem C20_send_epoch_monotone_with_pending_flights :
+  forall (e0 : N) (ops : list pop),
+    nondecreasing (emitted_epochs (prun false (pinit e0) ops)).
+Proof. exact send_epoch_monotone_with_pending_flights. Qed.
+Print Assumptions C20_send_epoch_monotone_with_pending_flights.
+
+Theorem C20_one_active_reliable_flight :
+  forall (e0 : N) (ops : list pop),
+    let st := prun false (pinit e0) ops in
+    (length (ps_flights st) <= 1)%nat /\
+    (forall f, In f (ps_flights st) -> pf_epoch f = ps_epoch st) /\
+    (forall e, In e (emitted_epochs st) -> e <= ps_epoch st).
+Proof. exact one_active_reliable_flight. Qed.
+Print Assumptions C20_one_active_reliable_flight.
+
+(* the variant that lets a KeyUpdate overtake a pending NewSessionTicket flight whose packets keep the
+   epoch they were sealed under: a ticket retransmission under epoch 3 follows data under epoch 4 *)
+Theorem C20_send_epoch_monotone_with_pending_flights_refuted :
+  exists ops : list pop, ~ nondecreasing (emitted_epochs (prun true (pinit 3) ops)).
+Proof. exact send_epoch_monotone_with_pending_flights_refuted. Qed.
+Print Assumptions C20_send_epoch_monotone_with_pending_flights_refuted.
+
+Example C20_example_overtake_witness_under_code_policy :
+  emitted_epochs (prun false (pinit 3) overtake_witness) = [3; 3].
+Proof. exact overtake_witness_code. Qed.
